@@ -244,14 +244,7 @@ fn write_maybe_rpx_dimension(
             }),
         );
     } else {
-        let token = Token::Dimension {
-            has_sign,
-            value,
-            unit: unit.clone(),
-            int_value,
-        };
-        let st = StepToken::wrap(token, next.position);
-        ss.append_token(st, input, None);
+        ss.append_token(next.clone(), input, None);
     }
 }
 
